@@ -288,8 +288,12 @@ def query_arcsec(lat_deg, lon_deg):
     return Fraction(lat_deg) * 3600, -Fraction(lon_deg) * 3600
 
 
-def _axis(x, lo, hi):
+def _axis(x, lo, hi, deg=None):
     fx = float(x)
+    if deg is not None and x == lo and float(lo) == lo and deg * 3600.0 == float(lo) and float(lo) / 3600.0 == deg:
+        # exactly on the lower (south / east) limit, and exactly so in floating point whichever way an implementation
+        # converts between degrees and arc-seconds: the limits belong to the extents, the position is inside
+        return 'in'
     for e in (lo, hi):
         tol = Fraction(EDGE_ULPS * max(math.ulp(float(e)), math.ulp(fx)))
         if abs(x - e) <= tol:
@@ -298,15 +302,19 @@ def _axis(x, lo, hi):
 
 
 def locate(model, lat_deg, lon_deg):
-    """For every sub-grid: 'in' (strictly inside, decisive), 'edge' (within 4 ulp of one of its extent edges and not
-    outside in the other coordinate: inclusion is a don't-care), 'out'.
+    """For every sub-grid: 'in' (strictly inside, or exactly on the south / east limit with exactly representable numbers:
+    decisive), 'edge' (within 4 ulp of one of its extent edges and not outside in the other coordinate: inclusion is a
+    don't-care; this includes the north / west limits, which the reader treats as half-open), 'out'.
     Returns dict(status=[...], finest_in=index|None, acceptable=set of indices and/or None, decisive=bool)."""
     LAT, LON = query_arcsec(lat_deg, lon_deg)
     status = []
+    on_lower = False
     for sg in model['subgrids']:
         S, N, E, W, _, _ = extents(sg)
-        a, b = _axis(LAT, S, N), _axis(LON, E, W)
+        a, b = _axis(LAT, S, N, float(lat_deg)), _axis(LON, E, W, -float(lon_deg))
         status.append('out' if 'out' in (a, b) else ('edge' if 'edge' in (a, b) else 'in'))
+        if status[-1] == 'in' and (LAT == S or LON == E):
+            on_lower = True
     ins = [k for k, s in enumerate(status) if s == 'in']
     edges = [k for k, s in enumerate(status) if s == 'edge']
     finest = None
@@ -321,7 +329,7 @@ def locate(model, lat_deg, lon_deg):
         acceptable.add(finest)
         acceptable.update(k for k in edges if _finer(model['subgrids'][k], model['subgrids'][finest]))
     return {'status': status, 'finest_in': finest, 'acceptable': acceptable, 'decisive': len(acceptable) == 1,
-            'LAT': LAT, 'LON': LON}
+            'LAT': LAT, 'LON': LON, 'exactly_on_south_or_east_limit': on_lower}
 
 
 def _finer(a, b):
